@@ -4,7 +4,6 @@ import (
 	"crypto/sha256"
 	"fmt"
 	"math/big"
-	"os"
 	"sync"
 	"time"
 
@@ -128,9 +127,6 @@ func Boot(disk *simdisk.Disk, forks Forks, withHandlers bool) *Node {
 	hookMu.Unlock()
 	FailWrite = nil
 
-	// second store (sqlite: contract logs, group index) is not oracle-visible; every
-	// incarnation starts it empty and the node rebuilds what it needs
-	os.RemoveAll("storage0/logs")
 
 	SetForks(forks)
 	common.SetBlockHeight(0)
@@ -143,6 +139,9 @@ func Boot(disk *simdisk.Disk, forks Forks, withHandlers bool) *Node {
 	if err := middleware.InitMiddleware(); err != nil {
 		panic(err)
 	}
+	// second store (sqlite: contract logs, group index) is not oracle-visible; every
+	// incarnation starts it empty and the node rebuilds what it needs
+	mysql.SimWipe()
 	service.InitService()
 	vm.InitVM()
 	h := &Helper{CheckGroupOK: true}
@@ -154,4 +153,3 @@ func Boot(disk *simdisk.Disk, forks Forks, withHandlers bool) *Node {
 	return n
 }
 
-var _ = mysql.CloseMysql
